@@ -82,7 +82,7 @@ def rebuilt_with_other_type_numbering(P):
                  charges=np.array(P.charges, float), groups=np.array(P.groups))
 
 
-def check_noop(ctx, st, S, P, atol, seed, w, variant=0, group=None):
+def check_noop(ctx, st, S, P, atol, seed, w, variant=0, group=None, only_at=None):
     S = clone(S)
     S.charges = np.array([1000.0 + i / 64.0 for i in range(len(S))])
     ids = [float(c) for c in S.charges]
@@ -124,6 +124,11 @@ def check_noop(ctx, st, S, P, atol, seed, w, variant=0, group=None):
             ctx.fail("self-replacement changed atom %d: position moved by %.3g, element %s->%s, group %d->%d" % (i, d, els_in[i], els_out[j], S.groups[i], out.groups[j]), witness=w)
             break
     after_terms = term_sets(out, oid)
+    if only_at is not None and {tuple(int(i) for i in m) for m in obs["found"]} - {tuple(int(i) for i in g) for g in only_at}:
+        # the structure was given the pattern's term at the planted copies only: a further occurrence (atoms of different copies that
+        # fit within the tolerance, or a copy matched in another order) rightly receives the pattern's term, which it did not have
+        st.count("term_sets_not_compared_(occurrence besides the planted ones receives the pattern's term)")
+        return len(obs["found"])
     for kind, arr, _ in AM.KINDS:
         pat_has = len(getattr(P, arr)) > 0
         if pat_has and not before_terms[kind]:
@@ -141,7 +146,7 @@ def multiset(a):
     return [(e, np.asarray(p, float)) for e, p in zip(a.elements, a.positions)]
 
 
-def check_aba(ctx, st, S, A, B, patA, patB, atol, seed, w, tol, fraction=1.0, sample="real"):
+def check_aba(ctx, st, S, A, B, patA, patB, atol, seed, w, tol, fraction=1.0, sample="real", grown=False):
     """A->B->A restores the multiset; after A->B no A is found"""
     import mofun
     if any(e in set(S.elements) for e in set(patB["elements"]) - set(patA["elements"])):
@@ -181,6 +186,11 @@ def check_aba(ctx, st, S, A, B, patA, patB, atol, seed, w, tol, fraction=1.0, sa
         ctx.fail("after replacing all %d occurrences of A by B a new search still finds A at %s" % (len(o1["found"]), [tuple(int(i) for i in m) for m in left][:3]), witness=w)
     st.count("refind_checked")
     o2 = replcase.observe_replace(S1, B, A, seed + 1, atol=atol)
+    if grown and o2["found"] is not None and replcase.matches_overlap(o2["found"]):
+        # the atom B adds beyond A landed within the tolerance of where a neighbouring copy's added atom is expected: the
+        # intermediate structure then holds occurrences of B that share atoms, which no replacement can serve (as for A above)
+        st.count("not_judged_added_atoms_of_neighbouring_copies_within_tolerance")
+        return 0
     if o2["found"] is None or o2["exception"] is not None:
         ctx.fail("replacing B back by A failed: %r" % (o2["exception"],), witness=w)
         return len(o1["found"])
@@ -190,7 +200,11 @@ def check_aba(ctx, st, S, A, B, patA, patB, atol, seed, w, tol, fraction=1.0, sa
     S2 = o2["result"]
     # the tolerance-based bound is the worst case; what the two alignments really have to absorb is how far the matched copies
     # are from exact images of the pattern (zero for exact copies): the same formula on the largest measured deviation, with margin
-    if len(patA["elements"]) >= 2 and o1.get("found_positions") is not None:
+    # (the way back is a search of its own: in a cell hardly wider than the pattern it may take the same atoms through other periodic
+    # images, which fit less exactly than the ones the first search took - thorough run 13; the measured bound is used only where
+    # every atom within reach of the anchor has a single image, i.e. the cell is more than twice as wide as the patterns)
+    roomy = np.all(G.perp_widths(np.array(S.cell, float)) > 2 * max(G.diameter(np.asarray(patA["positions"], float)), G.diameter(np.asarray(patB["positions"], float))) + 2 * atol + 0.1)
+    if len(patA["elements"]) >= 2 and o1.get("found_positions") is not None and roomy:
         try:
             dev = max(G.kabsch(np.asarray(patA["positions"], float), np.asarray(x, float))[3] for x in o1["found_positions"])
             tol_m = 6 * c05.bound(dev, patA["positions"], patB["positions"]) + 1e-6 * max(1.0, float(np.abs(np.asarray(S.positions, float)).max()))
@@ -260,6 +274,7 @@ def run_case(case, ctx):
                     setattr(S, "extra_%s_fields" % knd, np.full((len(terms), 0), ".", dtype=object))
             P0 = patterns.to_atoms(pat)
             variant = (case["s"] // 3) % 3
+            ring = False
             if case["s"] % 2 == 1 and pat["cls"] in ("asym4", "asym5", "asym6", "chiral4", "chiral5") and built["planted"]:
                 # a three-membered ring in every copy: all three angles over the same three atoms (one centred on each); the pattern
                 # carries just one of them - the other two are different terms and must survive the identical replacement
@@ -277,9 +292,10 @@ def run_case(case, ctx):
                 P0.angle_types = np.array([0])
                 P0.extra_angle_fields = np.full((1, 0), ".", dtype=object)
                 variant = 0
+                ring = True
                 st.count("self_replacements_with_several_terms_over_the_same_atoms")
             n = check_noop(ctx, st, S, P0, atol, case["s"], w, variant=variant,
-                           group=built["planted"][0] if built["planted"] else None)
+                           group=built["planted"][0] if built["planted"] else None, only_at=built["planted"] if ring else None)
         else:
             near_face = bool(case.get("exact")) and case["s"] % 3 == 1 and built["planted"]
             if near_face:
@@ -315,7 +331,7 @@ def run_case(case, ctx):
                         st.count("two_step_histories_with_a_larger_B")
             tol = 1e-6 if len(pat["elements"]) == 1 else 2 * c05.bound(atol, pat["positions"], B["positions"])
             frac = [1.0, 0.5, 0.67][(case["s"] // 7) % 3]
-            n = check_aba(ctx, st, S, patterns.to_atoms(pat), patterns.to_atoms(B), pat, B, atol, case["s"], w, tol, fraction=frac, sample=["reversed", "real"][case["s"] % 2])
+            n = check_aba(ctx, st, S, patterns.to_atoms(pat), patterns.to_atoms(B), pat, B, atol, case["s"], w, tol, fraction=frac, sample=["reversed", "real"][case["s"] % 2], grown=len(B["elements"]) > len(pat["elements"]))
         st.seen("synthetic_kind", kind)
         st.seen("cell_class", case["cell"])
         if n:
